@@ -3,11 +3,11 @@ package main
 import (
 	"bytes"
 	"context"
-	"time"
 	"encoding/json"
 	"errors"
 	"fmt"
 	"strings"
+	"time"
 
 	"github.com/ddddddO/gtree"
 	"github.com/fatih/color"
@@ -156,7 +156,11 @@ func c03Op(op string, root *gtree.Node, doc string, alias bool) (res opResult, p
 	var err error
 	var rows []sut.WalkRow
 	var kept []*gtree.WalkerNode // nodes handed out are kept and read again after the walk: they must still describe their own node
-	cb := func(wn *gtree.WalkerNode) error { rows = append(rows, sut.FromWalker(wn)); kept = append(kept, wn); return nil }
+	cb := func(wn *gtree.WalkerNode) error {
+		rows = append(rows, sut.FromWalker(wn))
+		kept = append(kept, wn)
+		return nil
+	}
 	rd := func() *strings.Reader { return strings.NewReader(doc) }
 	run := func(f func()) {
 		if !massive {
